@@ -240,6 +240,9 @@ def run(tier, rep):
             for i in range(len(s)):
                 for c in CH.CORRUPT:
                     muts.add(s[:i] + c + s[i + 1:])
+    # the same with a byte order mark (ES5 white space) in front
+    muts |= set('\ufeff' + m for m in list(muts)
+                if len(m) < 14 or tier != 'quick')
     muts = sorted(muts)
     total.merge(run_texts(muts, ('parse',)))
     total.merge(run_texts(muts[::4] if tier == 'quick' else muts[::2],
